@@ -255,6 +255,7 @@ type Exec struct {
 	methCache  map[methKey]*ssa.Function
 	env        map[string]Value // per-path scratch for models
 	atoms      bool
+	nAssertUnsat, nAssertConst int64
 	mapOrders  bool
 }
 
@@ -280,6 +281,7 @@ func (x *Exec) resetPath(decisions []uint64) {
 	x.deferStack, x.cur, x.cstack = nil, nil, x.cstack[:0]
 	x.violations, x.reaches, x.notes = nil, nil, nil
 	x.unknownQ = 0
+	x.nAssertUnsat, x.nAssertConst = 0, 0
 	x.fs = nil
 	x.env = nil
 }
